@@ -375,9 +375,17 @@ pub fn schemas() -> Vec<Schema> {
             let rule = json!({"actions": ["notify", {"set_tweak": "sound", "value": "default"}, {"set_tweak": "highlight"}], "default": true, "enabled": g.b(), "rule_id": ".m.rule.master", "conditions": [{"kind": "event_match", "key": "type", "pattern": "m.*"}, {"kind": "room_member_count", "is": "2"}, {"kind": "org.example.cond", "x": 1}]});
             json!({"global": {"override": [rule], "content": [{"actions": ["notify"], "default": false, "enabled": true, "rule_id": "c", "pattern": "alice"}], "room": [], "sender": [], "underride": []}})
         }),
+        // base_url is required and nullable: null = "the user does not want an identity server"
+        schema!("m.identity_server", GlobalAccountData, |g| { let mut o = obj(json!({"base_url": (if g.b() { json!("https://id.example") } else { Value::Null })})); g.extra(&mut o); Value::Object(o) }),
         schema!("m.secret_storage.default_key", GlobalAccountData, |g| { let mut o = obj(json!({"key": "keyid"})); g.extra(&mut o); Value::Object(o) }),
         schema!("m.secret_storage.key.abc", GlobalAccountData, |g| {
-            let mut o = obj(json!({"algorithm": "m.secret_storage.v1.aes-hmac-sha2", "iv": "YWJjZGVmZ2hpamtsbW5vcA", "mac": "aWRvbnRrbm93d2hhdGFtYWNsb29rc2xpa2U"}));
+            // the specified algorithm, or one this version of the specification does not know (its
+            // properties are then kept as they are)
+            let mut o = if g.n(4) == 0 {
+                obj(json!({"algorithm": "org.example.custom_algorithm", "org.example.parameter": {"x": 1}, "iv": "YWJj"}))
+            } else {
+                obj(json!({"algorithm": "m.secret_storage.v1.aes-hmac-sha2", "iv": "YWJjZGVmZ2hpamtsbW5vcA", "mac": "aWRvbnRrbm93d2hhdGFtYWNsb29rc2xpa2U"}))
+            };
             if g.b() { o.insert("name".into(), json!(g.s())); }
             if g.b() { o.insert("passphrase".into(), json!({"algorithm": "m.pbkdf2", "salt": "rocksalt", "iterations": 8, "bits": 256})); }
             Value::Object(o)
